@@ -54,6 +54,13 @@ func (ss *segmentStack) decRef() {
 			ss.lowerLevelSnapshot.Close()
 			ss.lowerLevelSnapshot = nil
 		}
+
+		// The child stacks were built together with this stack and
+		// are owned by it; release them (and the lower level snapshots
+		// they reference) as well.
+		for _, childSegStack := range ss.childSegStacks {
+			childSegStack.decRef()
+		}
 	}
 	ss.m.Unlock()
 }
